@@ -77,6 +77,8 @@ Definition run_pdu_c (op : Z) (a : args) : args :=
   (* NakPdu(...).get_max_seg_reqs_for_max_packet_size(n) *)
   | 1378 => ret (fun r => [[r]])
               (do r <- nak_of_args a; nak_max_seg_reqs (int 4 0 a) (nk_conf (fst r)))
+  (* NakPdu.unpack(data xor error pattern)  (C04: corrupted CRC-flagged PDUs) *)
+  | 1379 => ret nak_fields (nak_unpack (xor_bytes (lst 0 a) (lst 1 a)))
   (* Spec side (independent oracle): layout of (conf fields, params) *)
   | 1390 => [[0]; nak_layout (hdr_conf_raw (lst 0 a) (lst 1 a)) (params_of_args a)]
   | _ => [[1; 97]]
